@@ -144,8 +144,7 @@ Definition py_formatter (unit : Q) (output_unit : option Q) : formatter :=
   mkFmt (fmt_g 0 6 ou)
         (fun tt => fmt_g 0 6 (fmul (f_of_int tt) unit))
         (py_cells scalar)
-        (fun tt => fmt_f 6 2 (fmul (f_of_int tt) unit))
-        (fun tt => negb (Qnum (fmul (f_of_int tt) unit) =? 0)).
+        (fun tt => fmt_f 6 2 (fmul (f_of_int tt) unit)).
 
 Definition show_text_py (unit : Q) (output_unit : option Q) (E : env) (o : options) (st : stats)
   : report := show_text (py_formatter unit output_unit) E o st.
